@@ -104,21 +104,6 @@ Section JwtProofs.
         exfalso. apply jwt_ok_parse_ok in E2. assert (@None jverdict <> None) by (apply HA; auto). congruence.
   Qed.
 
-  (* histories: the n-th decision of one middleware instance is the Spec's, for every starting state *)
-  Lemma jwt_history : lib_contract -> forall cb secret prev reqs p,
-    map j_ran (snd (run_jwt jwt_parse cb p secret prev reqs)) =
-    map (fun nt => jwt_accept jwt_ok secret prev (snd nt)) reqs /\
-    reset_time (fst (run_jwt jwt_parse cb p secret prev reqs)) = reset_time p /\
-    reset_dur (fst (run_jwt jwt_parse cb p secret prev reqs)) = reset_dur p.
-  Proof.
-    intros L cb secret prev reqs. induction reqs as [|[now tok] r IH]; intro p; simpl; [auto|].
-    pose proof (jwt_iff L cb now p secret prev tok) as H1.
-    pose proof (authorize_fields cb now p secret prev tok) as [H2 H3].
-    destruct (authorize jwt_parse cb now p secret prev tok) as [p1 o]. simpl in *.
-    specialize (IH p1). destruct (run_jwt jwt_parse cb p1 secret prev r) as [p2 os]. simpl in *.
-    destruct IH as [I1 [I2 I3]]. rewrite H1, I1. repeat split; congruence.
-  Qed.
-
   Lemma ctx_of_visible claims : ctx_of claims = visible_claims claims.
   Proof.
     unfold ctx_of, visible_claims. apply filter_ext. intros [k v]. simpl. f_equal.
@@ -183,7 +168,31 @@ Section JwtProofs.
     intros L cb now p secret prev tok. cbv zeta. rewrite (jwt_iff L). split; [apply jwt_accept_prop|].
     apply authorize_fields.
   Qed.
+
+  (* no memory: the decision is the same from any two parser states, clocks and callbacks *)
+  Lemma jwt_no_memory : lib_contract -> forall cb cb' now now' p p' secret prev tok,
+    j_ran (snd (authorize jwt_parse cb now p secret prev tok)) =
+    j_ran (snd (authorize jwt_parse cb' now' p' secret prev tok)).
+  Proof. intros L cb cb' now now' p p' secret prev tok. rewrite !(jwt_iff L). reflexivity. Qed.
 End JwtProofs.
+
+(* histories with a moving clock: the n-th decision of one middleware instance is the Spec's at the
+   time of the n-th request, for every starting state -- earlier requests and verdicts do not matter *)
+Lemma jwt_history (jwt_at : Z -> N -> N -> jverdict) :
+  (forall jt, lib_contract (jwt_at jt)) -> forall cb secret prev (reqs : list (Z * Z * N)) p,
+  map j_ran (snd (run_jwt jwt_at cb p secret prev reqs)) =
+  map (fun r => jwt_accept (jwt_ok (jwt_at (snd (fst r)))) secret prev (snd r)) reqs /\
+  reset_time (fst (run_jwt jwt_at cb p secret prev reqs)) = reset_time p /\
+  reset_dur (fst (run_jwt jwt_at cb p secret prev reqs)) = reset_dur p.
+Proof.
+  intros L cb secret prev reqs. induction reqs as [|[[now jt] tok] r IH]; intro p; simpl; [auto|].
+  pose proof (jwt_iff (jwt_at jt) (L jt) cb now p secret prev tok) as H1.
+  pose proof (authorize_fields (jwt_at jt) cb now p secret prev tok) as [H2 H3].
+  destruct (authorize (jwt_at jt) cb now p secret prev tok) as [p1 o]. simpl in *.
+  specialize (IH p1). destruct (run_jwt jwt_at cb p1 secret prev r) as [p2 os]. simpl in *.
+  destruct IH as [I1 [I2 I3]]. rewrite H1, I1. repeat split; congruence.
+Qed.
+
 
 (* ========================================================================================== *)
 (* (SIG) the time window on int64                                                              *)
@@ -547,6 +556,61 @@ Section SigProofs.
   Qed.
 End SigProofs.
 
+(* ========================================================================================== *)
+(* (SIG) route groups on one engine                                                            *)
+
+Section EngineProofs.
+  Variable rsa_key_dec : N -> bytes -> option bytes.
+  Variable b64_dec : bytes -> option bytes.
+  Variable hmac_b64 : bytes -> bytes -> bytes.
+  Variable sha_hex : bytes -> bytes.
+  Variable url_parse : bytes -> option (bytes * bytes).
+  Variable body_dec : bytes -> request -> dec_res.
+
+  Notation egate := (engine_gate rsa_key_dec b64_dec hmac_b64 sha_hex url_parse body_dec).
+  Notation ggate := (group_gate rsa_key_dec b64_dec hmac_b64 sha_hex url_parse body_dec).
+
+  (* what a request is answered on group i's routes depends on group i's own configuration only:
+     neither on the other groups nor on the registration order *)
+  Lemma engine_gate_local groups groups' i j :
+    nth_error groups i = nth_error groups' j -> egate groups i = egate groups' j.
+  Proof. unfold engine_gate. intros ->. reflexivity. Qed.
+
+  (* the fingerprint / secret a request announces *)
+  Definition announced_fp (r : request) : bytes := attr f_fingerprint (parse_header (r_cs r)).
+  Definition announced_secret (r : request) : bytes := attr f_secret (parse_header (r_cs r)).
+
+  (* strict group: a request whose secret does not decrypt under the key configured FOR THIS GROUP
+     under the announced fingerprint (in particular: fingerprint not configured for this group) is
+     refused with 403, whatever other groups are configured with *)
+  Lemma group_isolation g now r :
+    g_keys g <> [] -> g_strict g = true -> method_checked r = true ->
+    (forall k, alookup bytes_eqb (announced_fp r) (decryptor_map (g_keys g)) = Some k ->
+               rsa_key_dec k (announced_secret r) = None) ->
+    s_status (ggate g now r) = 403 /\ s_ran (ggate g now r) = false.
+  Proof.
+    intros _ Hs Hm Hk. unfold group_gate. rewrite Hs. apply strict_403; [assumption|].
+    intros h. unfold parse_content_security. fold (announced_fp r). fold (announced_secret r).
+    destruct (announced_fp r) as [|f0 fr] eqn:EF; [discriminate|].
+    destruct (announced_secret r) as [|s0 sr] eqn:ES; [discriminate|].
+    destruct (attr f_signature (parse_header (r_cs r))) as [|g0 gr]; [discriminate|].
+    destruct (negb (existsb (bytes_eqb (f0 :: fr)) (map fst (decryptor_map (g_keys g))))); [discriminate|].
+    destruct (alookup bytes_eqb (f0 :: fr) (decryptor_map (g_keys g))) as [k|] eqn:EK; [|discriminate].
+    rewrite (Hk k eq_refl). discriminate.
+  Qed.
+
+  Lemma engine_isolation groups i g now r o :
+    nth_error groups i = Some g -> g_keys g <> [] -> g_strict g = true -> method_checked r = true ->
+    (forall k, alookup bytes_eqb (announced_fp r) (decryptor_map (g_keys g)) = Some k ->
+               rsa_key_dec k (announced_secret r) = None) ->
+    egate groups i now r = Some o -> s_status o = 403 /\ s_ran o = false.
+  Proof.
+    intros Hn Hk Hs Hm Hd. unfold engine_gate, signature_verifier. rewrite Hn.
+    pose proof (group_isolation g now r Hk Hs Hm Hd) as HG.
+    destruct (g_keys g) as [|kv ks]; [congruence|]. intro H; inversion H; subst. exact HG.
+  Qed.
+End EngineProofs.
+
 (* the path that is routed is not the signed one when X-Request-Uri is present *)
 Lemma routed_path_not_covered :
   exists url_parse r r', r_path r <> r_path r' /\ r_xuri r = r_xuri r' /\
@@ -690,4 +754,18 @@ Proof.
           exists st. split; [apply in_or_app; auto|assumption]. }
       destruct (IH cache' (past ++ [store0]) i store md app token Hc' Hn Hm Hr) as [st [Hin Hst]].
       exists st. split; [|assumption]. rewrite <- app_assoc in Hin. exact Hin.
+Qed.
+
+(* interceptors: the method name (and unary/stream) is irrelevant; the handler runs iff code OK *)
+Lemma intercept_method_irrelevant mode mode' m m' strict cache store md :
+  intercept mode m strict cache store md = intercept mode' m' strict cache store md.
+Proof. reflexivity. Qed.
+
+Lemma intercept_spec mode m strict cache store md :
+  let '(cache', code, ran) := intercept mode m strict cache store md in
+  cache' = fst (authenticate strict cache store md) /\ code = snd (authenticate strict cache store md) /\
+  (ran = true <-> code = rpc_ok).
+Proof.
+  unfold intercept. destruct (authenticate strict cache store md) as [c code]. simpl.
+  destruct (Z.eqb_spec code rpc_ok) as [->|E]; repeat split; auto; try discriminate; try (intro; contradiction).
 Qed.
